@@ -10,6 +10,9 @@ package main
 import (
 	"fmt"
 	"math/big"
+	"strings"
+	"sync"
+	"time"
 
 	libtss "github.com/bnb-chain/tss-lib/v2/tss"
 	"google.golang.org/protobuf/encoding/protowire"
@@ -151,5 +154,76 @@ func disguisedEnvelopeOracle(w *wiring, p *common.Part, label string) {
 		b := splitEnvelope(reps[ta].Data)
 		check(fmt.Sprintf("fields in the opposite order (%s)", ta), cat(envField(2, b.val), envField(1, b.url)), reps[ta].From, reps[ta].Bcast)
 		check(fmt.Sprintf("type field repeated identically (%s)", ta), cat(envField(1, b.url), envField(1, b.url), envField(2, b.val)), reps[ta].From, reps[ta].Bcast)
+	}
+}
+
+// craftedPrefixSession: a session member re-labels its broadcast-class messages: the envelope's type URL keeps the message name but
+// gets another prefix ("x.example/<name>" instead of "type.googleapis.com/<name>"), and the member sends them to the others one
+// by one. tss-lib resolves a type by what follows the last '/', so it still recognises the message; the adapter's classifier
+// decides whether the reliable broadcast runs. If the honest parties COMPLETE a key generation in which such messages were
+// classified as point-to-point, the library consumed broadcast-class messages that never went through the reliable broadcast.
+func craftedPrefixSession(p *common.Part, kind string, ids []uint16, thr int, label string) {
+	w := newWiring(kind, ids, thr)
+	if err := w.fresh("keygen", ids, nil); err != nil {
+		return
+	}
+	byz := ids[len(ids)-1]
+	var mu sync.Mutex
+	relabelled, asP2P, refused := 0, 0, 0
+	selfOK := true
+	w.route = func(e emitted, deliver deliverFn) {
+		if e.From != byz || !e.Bcast {
+			w.genuine(e, ids)
+			return
+		}
+		sp := splitEnvelope(e.Data)
+		if !sp.ok || string(cat(envField(1, sp.url), envField(2, sp.val))) != string(e.Data) {
+			mu.Lock()
+			selfOK = false
+			mu.Unlock()
+			w.genuine(e, ids)
+			return
+		}
+		name := string(sp.url)
+		if i := strings.LastIndex(name, "/"); i >= 0 {
+			name = name[i+1:]
+		}
+		env := cat(envField(1, []byte("x.example/"+name)), envField(2, sp.val))
+		for _, m := range ids {
+			if m == byz {
+				continue
+			}
+			_, bc, err := w.parts[m].ClassifyMsg(env)
+			mu.Lock()
+			relabelled++
+			if err != nil {
+				refused++
+			} else if !bc {
+				asP2P++
+			}
+			mu.Unlock()
+			deliver(m, env, e.From, false)
+		}
+	}
+	out := w.run(ids, false, nil, 3*time.Second)
+	mu.Lock()
+	defer mu.Unlock()
+	p.Count("relabelled_envelopes", int64(relabelled))
+	p.Case(label+" "+kind+" crafted type-URL prefix", relabelled > 0)
+	if !selfOK {
+		p.Inconcl("envelope re-assembly differs from the original bytes: crafted prefixes skipped")
+		return
+	}
+	completed := 0
+	for _, id := range ids {
+		if id != byz && out.errs[id] == nil {
+			completed++
+		}
+	}
+	if completed > 0 && asP2P > 0 {
+		p.Violate("broadcast-consumed-without-reliable-broadcast/"+kind, fmt.Sprintf("%s: %d honest parties completed a key generation in which %d broadcast-class messages of party %d, re-labelled with another type-URL prefix, had been classified as point-to-point (so no reliable broadcast ran for them) and were consumed by the library all the same", label, completed, asP2P, byz), nil)
+	}
+	if completed == 0 {
+		p.Count("relabelled_sessions_refused", 1)
 	}
 }
